@@ -133,7 +133,11 @@ impl<'de> serde::Deserializer<'de> for ValueDeserializer {
         V: serde::de::Visitor<'de>,
     {
         if serde_spanned::__unstable::is_spanned(name, fields) {
-            if let Some(span) = self.input.span() {
+            if let Some(span) = self
+                .input
+                .span()
+                .or_else(|| super::implied_item_span(&self.input))
+            {
                 return visitor.visit_map(super::SpannedDeserializer::new(self, span));
             }
         }
